@@ -378,7 +378,7 @@ def run(ctx):
 
     # ---- code -> spec: seeded random tables, larger than TLC enumerates
     traces, cases = [], []
-    nrand = 300 if quick else 4000
+    nrand = 300 if quick else 3000
     for j in range(nrand):
         case = random_case(ctx.rng, big=(j % (8 if quick else 4) == 0))
         ev = render_case(case)
@@ -408,7 +408,7 @@ def run(ctx):
         traces.append(run_object(ocase))
         cases.append(ocase)
         nobj += 1
-    for _ in range(150 if quick else 3000):
+    for _ in range(150 if quick else 2000):
         ocase = random_object_case(ctx.rng)
         traces.append(run_object(ocase))
         cases.append(ocase)
